@@ -341,9 +341,8 @@ theorem dropFinalNewline_id (s : Str) (h : Char.ofNat 10 ∉ s) : dropFinalNewli
   · rfl
 
 open Xs.Spec in
-/-- `is_uri` accepts every RFC 2396 URI reference that does not end in `#` -/
-theorem isUri_of_rfc (u : Str) (h : isRfcUriRef u = true) (hl : u.getLast? ≠ some '#') :
-    isUri (some u) = true := by
+/-- `is_uri` accepts every RFC 2396 URI reference (the fragment may be empty) -/
+theorem isUri_of_rfc (u : Str) (h : isRfcUriRef u = true) : isUri (some u) = true := by
   simp only [isRfcUriRef, Bool.and_eq_true, Bool.not_eq_true', List.all_eq_true] at h
   obtain ⟨⟨hne, hbody⟩, hfrag⟩ := h
   obtain ⟨hsplit, hnf⟩ := partitionChar_spec '#' u
@@ -366,15 +365,8 @@ theorem isUri_of_rfc (u : Str) (h : isRfcUriRef u = true) (hl : u.getLast? ≠ s
   · cases hf : (partitionChar '#' u).2.1 with
     | false => simp
     | true =>
-      simp only [if_true, Bool.and_eq_true, Bool.not_eq_true', List.all_eq_true]
-      refine ⟨?_, fun c hc => (rfcUriChar_tables c (hfrag c hc)).2.1⟩
-      cases hfr : (partitionChar '#' u).2.2 with
-      | cons a r => rfl
-      | nil =>
-        exfalso
-        apply hl
-        rw [hsplit, hf, hfr]
-        simp
+      simp only [if_true, List.all_eq_true]
+      exact fun c hc => (rfcUriChar_tables c (hfrag c hc)).2.1
 
 /-! ### generated prefixes -/
 
